@@ -476,6 +476,9 @@ pub fn eval_unit_name(
                 let (left_unit, left) = eval_unit_name(ctx, &binop.left)?;
                 let (right_unit, right) = eval_unit_name(ctx, &binop.right)?;
 
+                if right == Numeric::zero() || right == Numeric::Float(0.0) {
+                    return Err(QueryError::generic("Division by zero".to_string()));
+                }
                 let right_unit = right_unit
                     .into_iter()
                     .map(|(k, v)| (k, -v))
@@ -504,20 +507,21 @@ pub fn eval_unit_name(
                 }
                 let right = right.value.to_f64();
                 let (left_unit, left_value) = eval_unit_name(ctx, &binop.left)?;
-                Ok((
-                    left_unit
-                        .into_iter()
-                        .filter_map(|(k, v)| {
-                            let v = v * right as isize;
-                            if v != 0 {
-                                Some((k, v))
-                            } else {
-                                None
-                            }
-                        })
-                        .collect::<BTreeMap<_, _>>(),
-                    left_value.pow(right as i32),
-                ))
+                if right < 0.0
+                    && (left_value == Numeric::zero() || left_value == Numeric::Float(0.0))
+                {
+                    return Err(QueryError::generic("Division by zero".to_string()));
+                }
+                let mut unit = BTreeMap::new();
+                for (k, v) in left_unit {
+                    let v = v
+                        .checked_mul(right as isize)
+                        .ok_or_else(|| QueryError::generic("Exponent is too large".to_string()))?;
+                    if v != 0 {
+                        unit.insert(k, v);
+                    }
+                }
+                Ok((unit, left_value.pow(right as i32)))
             }
             BinOpType::ShiftL | BinOpType::ShiftR => Err(QueryError::generic(
                 "Shifts are not allowed in the right hand side of conversions".to_string(),
